@@ -2,6 +2,8 @@
   C21 — the IPv6 text reads back to the 16 requested bytes (assembly over the position of the compressed run).
 -/
 import MitmVerif.Lemmas.C21V6Read
+import MitmVerif.Lemmas.C21V6ReadB
+import MitmVerif.Lemmas.C21V6ReadC
 import MitmVerif.Lemmas.C21V6
 set_option linter.unusedSimpArgs false
 set_option linter.unusedVariables false
